@@ -6,6 +6,7 @@ import (
 	"reflect"
 	"strings"
 	"time"
+	"unsafe"
 
 	kmip "github.com/smira/go-kmip"
 
@@ -53,7 +54,7 @@ func runC20(r *Result, d *drv.Driver, tier string, seed int64, replay string) {
 		maxOffer = 4
 	}
 	r.Rule = fmt.Sprintf("exhaustive over a 5-version universe {1.4,1.3,1.2,1.1,2.0}: every configured SupportedVersions list of length <= %d (order, duplicates; empty = default) x every offer of length <= %d, configured in one of three orders (struct literal / Handle then assignment / assignment then Handle), each sent as a real Discover Versions request to the real Server over an in-memory connection; reply compared with the model and with the property stated directly (empty offer -> whole list in order; else offer filtered by membership); "+
-		"after each server's run the configuration and DefaultSupportedVersions must be unchanged and not share a backing array. distinct = one per (configuration, offer)", maxSup, maxOffer)
+		"after each server's run the configuration and DefaultSupportedVersions must be unchanged and not share a backing array; the built-in handler is also called in process on each server (the only place the reply is a Go value), its reply checked for shared storage with the configuration, then overwritten and appended to, and the configuration re-read. distinct = one per (configuration, offer)", maxSup, maxOffer)
 	r.Exhaustive = true
 	sups := allLists(maxSup)
 	offers := allLists(maxOffer)
@@ -107,6 +108,7 @@ func runC20(r *Result, d *drv.Driver, tier string, seed int64, replay string) {
 			got = append(got, reply)
 			lines = append(lines, fmt.Sprintf("discover %s %s", verStr(sup), verStr(offer)))
 		}
+		c20AliasProbe(r, s, sup, offers)
 		client.Close()
 		ctx, cancel := context.WithTimeout(context.Background(), 10*time.Second)
 		if err := s.Shutdown(ctx); err != nil {
@@ -164,6 +166,91 @@ func runC20(r *Result, d *drv.Driver, tier string, seed int64, replay string) {
 			} else if &s.SupportedVersions[0] == &kmip.DefaultSupportedVersions[0] {
 				r.find(Finding{Kind: "violation", What: "the defaulted configuration aliases DefaultSupportedVersions instead of copying it", Actual: "same backing array"})
 			}
+		}
+	}
+}
+
+// builtinDiscover fetches the handler the running Server has registered for Discover Versions (an unexported map; read
+// through reflection, nothing in /repo is changed for it).
+func builtinDiscover(s *kmip.Server) kmip.Handler {
+	f := reflect.ValueOf(s).Elem().FieldByName("handlers")
+	if !f.IsValid() || f.Kind() != reflect.Map {
+		return nil
+	}
+	m := reflect.NewAt(f.Type(), unsafe.Pointer(f.UnsafeAddr())).Elem()
+	v := m.MapIndex(reflect.ValueOf(kmip.OPERATION_DISCOVER_VERSIONS))
+	if !v.IsValid() {
+		return nil
+	}
+	h, _ := v.Interface().(kmip.Handler)
+	return h
+}
+
+func sharesBacking(a, b []kmip.ProtocolVersion) bool {
+	a, b = a[:cap(a)], b[:cap(b)]
+	for i := range a {
+		for j := range b {
+			if &a[i] == &b[j] {
+				return true
+			}
+		}
+	}
+	return false
+}
+
+// c20AliasProbe calls the built-in handler in process - the only place where the reply is a Go value rather than bytes - and
+// plays the consumer the property protects the configuration from: it checks that the reply shares no storage with the
+// configuration (or the package default), then scribbles over the reply and appends to it, and asks again.
+func c20AliasProbe(r *Result, s *kmip.Server, sup []kmip.ProtocolVersion, offers [][]kmip.ProtocolVersion) {
+	h := builtinDiscover(s)
+	if h == nil {
+		r.find(Finding{Kind: "disagreement", What: "the built-in Discover Versions handler is no longer reachable where the harness looks for it (Server.handlers)"})
+		return
+	}
+	before := append([]kmip.ProtocolVersion(nil), s.SupportedVersions...)
+	defBefore := append([]kmip.ProtocolVersion(nil), kmip.DefaultSupportedVersions...)
+	for oi, offer := range offers {
+		if oi > 40 && len(offer) > 1 && oi%7 != 0 {
+			continue
+		}
+		in := append([]kmip.ProtocolVersion(nil), offer...)
+		item := &kmip.RequestBatchItem{Operation: kmip.OPERATION_DISCOVER_VERSIONS, RequestPayload: kmip.DiscoverVersionsRequest{ProtocolVersions: in}}
+		resp, err := h(&kmip.RequestContext{}, item)
+		r.eval(fmt.Sprintf("alias %s %s", verStr(sup), verStr(offer)), len(offer) > 0)
+		r.Stats["in-process-alias-probes"]++
+		p, ok := resp.(kmip.DiscoverVersionsResponse)
+		if err != nil || !ok {
+			r.find(Finding{Kind: "violation", What: "built-in Discover Versions handler failed in process", Input: map[string]string{"supported": verStr(sup), "offer": verStr(offer)}, Actual: fmt.Sprint(resp, err)})
+			return
+		}
+		what := ""
+		switch {
+		case sharesBacking(p.ProtocolVersions, s.SupportedVersions):
+			what = "the reply's version list shares its backing array with Server.SupportedVersions"
+		case sharesBacking(p.ProtocolVersions, kmip.DefaultSupportedVersions):
+			what = "the reply's version list shares its backing array with DefaultSupportedVersions"
+		}
+		// the consumer: overwrite, then append through the full capacity
+		full := p.ProtocolVersions[:cap(p.ProtocolVersions)]
+		for i := range full {
+			full[i] = kmip.ProtocolVersion{Major: 9, Minor: int32(9 + i)}
+		}
+		_ = append(p.ProtocolVersions, kmip.ProtocolVersion{Major: 8, Minor: 8})
+		if what == "" && !reflect.DeepEqual(s.SupportedVersions, before) {
+			what = "writing to the reply changed Server.SupportedVersions"
+		}
+		if what == "" && !reflect.DeepEqual(kmip.DefaultSupportedVersions, defBefore) {
+			what = "writing to the reply changed DefaultSupportedVersions"
+		}
+		if !reflect.DeepEqual(in, offer) {
+			what = "the handler modified the offer it was given"
+		}
+		if what != "" {
+			r.find(Finding{Kind: "violation", What: what, Input: map[string]string{"supported": verStr(sup), "offer": verStr(offer)},
+				Expect: "configuration " + verStr(before), Actual: "configuration now " + verStr(s.SupportedVersions) + ", defaults " + verStr(kmip.DefaultSupportedVersions)})
+			copy(s.SupportedVersions, before)
+			copy(kmip.DefaultSupportedVersions, defBefore)
+			return
 		}
 	}
 }
